@@ -85,9 +85,9 @@ package bytesconv
 //@ ghost field *.avail int
 //@ ghost field *.failed bool
 
+// Peek does not change memory the caller can see; the returned slice may alias anything.
 //@ interface network.Reader.Peek(this, n) p, err
-//@   modifies this.avail, this.failed, mem
-//@   allocates
+//@   modifies this.avail, this.failed
 //@   ensures len(p) <= n && (err == nil ==> len(p) == n && this.avail >= n) && (err != nil ==> this.failed) && (old(this.failed) ==> this.failed)
 //@   ensures forall(k, 0, len(p), p[k] == wire(this, this.pos + k))
 //@   ensures this.avail >= 0
@@ -97,7 +97,7 @@ package bytesconv
 //@   ensures err != nil ==> this.pos == old(this.pos) && this.avail == old(this.avail)
 //@   ensures 0 <= n && n <= old(this.avail) ==> err == nil
 //@ interface network.Reader.ReadByte(this) b, err
-//@   modifies this.pos, this.avail, this.failed, mem
+//@   modifies this.pos, this.avail, this.failed
 //@   ensures err == nil ==> b == wire(this, old(this.pos)) && this.pos == old(this.pos) + 1
 //@   ensures err != nil ==> this.pos == old(this.pos)
 //@   ensures old(this.failed) ==> this.failed
@@ -129,8 +129,7 @@ package bytesconv
 
 // io.Reader seen on a connection that is also a network.Reader: Read consumes exactly the bytes it returns.
 //@ interface io.Reader.Read(this, p) n, err
-//@   modifies this.pos, this.avail, this.failed, mem
-//@   allocates
+//@   modifies this.pos, this.avail, this.failed, bytes(p)
 //@   ensures 0 <= n && n <= len(p) && this.pos == old(this.pos) + n && (old(this.failed) ==> this.failed)
 
 // bytes.Reader (prefetched body bytes): unread portion is s[i:].
